@@ -239,6 +239,27 @@ def gen_hist(ch, opts, real_limit=False):
                         c.features.add('same_sequence_with_and_without_local_table')
                     cases.extend(pair if ch.bool() else pair[::-1])
                     continue
+            if ch.bool(1, 7) and len(cases) + 2 <= n:
+                # twins: an element that two master table versions define with the same width but another scale or
+                # reference value, in the same small template on both versions
+                vs = opts.versions or versions
+                v1 = ch.choice(vs)
+                cands = [(v2, gpool.version_diff_elements(min(v1, v2), max(v1, v2))) for v2 in vs if v2 != v1]
+                cands = [(v2, e) for v2, e in cands if e]
+                if cands:
+                    v2, elems = ch.choice(cands)
+                    e = ch.choice(elems)
+                    b2 = gpool.pool_for(v2).tables.B
+                    other = ch.choice(gpool.pool_for(v1).num_all)
+                    ids = [e] if (ch.bool() or other not in b2) else [other, e, e]
+                    try:
+                        pair = [gmsg.gen_case(ch, opts, fixed=(v, None, ids)) for v in (v1, v2)]
+                    except Reject:
+                        pair = []
+                    for c in pair:
+                        c.features.add('same_element_other_scale_or_reference')
+                    cases.extend(pair)
+                    continue
             cases.append(gmsg.gen_case(ch, opts))
     damaged = []
     for _ in range(ch.int(0, 2)):
@@ -313,6 +334,8 @@ def classify(hc):
 def check_hist(hc):
     out = Outcome()
     cls = classify(hc)
+    if any('same_element_other_scale_or_reference' in c.features for c in hc.cases):
+        cls.add('twins_same_width_other_scale_or_reference')
     if any('same_sequence_with_and_without_local_table' in c.features for c in hc.cases):
         cls.add('twins_with_and_without_local_table')
     out.classes = sorted(cls) + ['table_limit_%s' % (hc.table_limit or 'real')] + sorted(set('coder_cache_%s' % c for c in hc.coder_caches))
